@@ -2,8 +2,8 @@
    Property theorems only; proofs in lib/RecvProofs.v, lib/BananaRecvProofs.v, lib/TokenProofs.v. *)
 From Coq Require Import ZArith List Bool.
 Import ListNotations.
-Require Import Verif.lib.PyLite Verif.gen.BananaGen Verif.lib.Token Verif.lib.TokenProofs Verif.lib.Recv Verif.lib.RecvProofs
-               Verif.lib.BananaRecv Verif.lib.BananaRecvProofs Verif.lib.BananaRecvCount.
+Require Import Verif.lib.PyLite Verif.gen.BananaGen Verif.gen.RecvGen Verif.lib.Token Verif.lib.TokenProofs Verif.lib.Recv Verif.lib.RecvProofs
+               Verif.lib.BananaRecv Verif.lib.BananaRecvProofs Verif.lib.BananaRecvCount Verif.lib.RecvTie Verif.lib.BananaRecvSilent.
 Local Open Scope Z_scope.
 
 (* "the receiver's observable behaviour is a function of the byte sequence alone - identical for every
@@ -43,7 +43,7 @@ Print Assumptions C07_token_spec.
 (* a header of 65 bytes without a type byte ends the connection, whatever follows *)
 Theorem C07_header_cap : forall c b m, List.length b = 65%nat -> Forall (fun x => x < 128) b ->
   tok_step bctx event begin_body finish_body step_nobody (fatal 0) (fatal 0) (fun _ => [ELose]) c (b ++ m) = TDead bctx event (fatal 0).
-Proof. intros; apply header_cap; assumption. Qed.
+Proof. exact (header_cap_any bctx event begin_body finish_body step_nobody (fatal 0) (fatal 0) (fun _ => [ELose])). Qed.
 Print Assumptions C07_header_cap.
 
 (* a violation never pops the root unslicer, and counts exactly the frames it pops for discarding *)
@@ -87,6 +87,36 @@ Theorem C07_ping_transparent : forall c n, exists c', tok_apply c tok_PING n [] 
                                                     (exists es, tok_apply c tok_PING n [] = Fatal' es).
 Proof. exact ping_transparent. Qed.
 Print Assumptions C07_ping_transparent.
+(* ... in fact it never fails and leaves the receiver's state untouched *)
+Theorem C07_ping_exact : forall c n, tok_apply c tok_PING n [] = Ok' c [EPong n].
+Proof. exact banana_ping_exact. Qed.
+Print Assumptions C07_ping_exact.
+
+(* "A schema violation discards exactly the offending top-level object": while the rest of a rejected object is being discarded
+   (discardCount > 0) every token up to and including the CLOSE that brings discardCount back to 0 changes nothing but discardCount:
+   no unslicer is touched, NOTHING IS DELIVERED, NO FURTHER VIOLATION IS REPORTED; only PINGs are answered ... *)
+Theorem C07_discarding_is_silent_policy : forall ts c c' es, inOpen c = false -> keeps_discarding (discard c) ts -> apply_all c ts = Ok' c' es ->
+  stack c' = stack c /\ inOpen c' = false /\ discard c' = discard c + delta_sum ts /\ vocab c' = vocab c /\ rootmode c' = rootmode c /\ pongs_only es.
+Proof. exact banana_discard_silent. Qed.
+(* ... so once the root has absorbed the violation (only the root is left), the receiver is at top level again exactly at the end
+   of that object, having emitted nothing but PONGs *)
+Theorem C07_rejected_object_ends_at_top_policy : forall ts c c' es,
+  stack c = [root_frame] -> inOpen c = false -> keeps_discarding (discard c) ts -> discard c + delta_sum ts = 0 ->
+  apply_all c ts = Ok' c' es -> at_top c' /\ pongs_only es /\ vocab c' = vocab c.
+Proof. exact banana_rejected_object_ends_at_top. Qed.
+Print Assumptions C07_discarding_is_silent_policy.
+Print Assumptions C07_rejected_object_ends_at_top_policy.
+
+(* non-vacuity: in the stream of C07_resync_example the child violation happens at the first INT; the tokens INT 6, CLOSE 0 that follow
+   are discarded silently *)
+Example C07_discarding_example :
+  exists c1 es1 c2, apply_all (ctx0 0 []) [(tok_OPEN, 0, []); (tok_STRING, 2, [67; 48]); (tok_INT, 5, [])] = Ok' c1 es1 /\ In EViolation es1 /\
+    stack c1 = [root_frame] /\ inOpen c1 = false /\ keeps_discarding (discard c1) [(tok_INT, 6, []); (tok_CLOSE, 0, [])] /\
+    apply_all c1 [(tok_INT, 6, []); (tok_CLOSE, 0, [])] = Ok' c2 [] /\ at_top c2.
+Proof.
+  eexists. eexists. eexists. split; [vm_compute; reflexivity|]. split; [cbn; auto 10|]. split; [reflexivity|]. split; [reflexivity|].
+  split; [cbn; repeat split; reflexivity|]. split; [vm_compute; reflexivity|repeat split].
+Qed.
 
 (* non-vacuity: a top-level context exists, is well formed, and a balanced object with a violation inside resynchronises *)
 Example C07_resync_example :
@@ -126,3 +156,161 @@ Proof.
   eexists. eexists. eexists. eexists.
   split; [vm_compute; reflexivity|]. split; [cbn; auto 10|]. split; [vm_compute; reflexivity|reflexivity].
 Qed.
+
+(* ======================================================================================================================
+   ROUND 5.  The receive logic above the tokenizer -- handleData's discardCount / inOpen / rejected bookkeeping and taste,
+   handleOpen, handleToken, handleClose, handleViolation, dataReceived's catch-all -- written ONCE over an abstract unslicer
+   semantics (lib/Unsl.v: every IUnslicer callback returns ok | Violation | BananaError | any other exception), and the
+   property's sentences proved for EVERY such semantics.  Instances compared with the real code on every run: the policy
+   unslicers (lib/PolUnsl.v) and the STANDARD unslicers of slicers/*.py under real constraint objects (lib/StdUnsl.v). *)
+Require Import Verif.gen.RecvGen Verif.lib.Unsl Verif.lib.UnslProofs Verif.lib.UnslFollow Verif.lib.StdUnsl Verif.lib.StdUnslProofs Verif.lib.RecvTie.
+
+Section AnyUnslicers.
+Variable fr : Type.
+Variable u_check : fr -> Z -> Z -> oc unit.
+Variable u_opener_check : list fr -> Z -> Z -> list (list Z) -> oc unit.
+Variable u_do_open : list fr -> list (list Z) -> oc (option fr).
+Variable u_start : fr -> Z -> oc fr.
+Variable u_child : fr -> uval -> list uevent * oc fr.
+Variable u_close : fr -> oc uval.
+Variable u_finish : fr -> oc unit.
+Variable u_report : fr -> option (list uevent).
+Notation FEED := (ufeed_all fr u_check u_opener_check u_do_open u_start u_child u_close u_finish u_report).
+Notation APPLY := (uapply_all fr u_check u_opener_check u_do_open u_start u_child u_close u_finish u_report).
+
+(* "identical for every way of splitting it into packets", whatever the unslicers do *)
+Theorem C07_any_unslicers_chunk_independent : forall c cs cs', concat cs = concat cs' -> FEED (init c) cs = FEED (init c) cs'.
+Proof. exact (unsl_chunk_independent fr u_check u_opener_check u_do_open u_start u_child u_close u_finish u_report). Qed.
+
+(* "no exception ever escapes to the transport": the except clause of dataReceived (translated: gen/RecvGen.dr_caught) catches
+   every exception kind, so whatever a callback raises -- BananaError, KeyError, TypeError, AssertionError, anything -- from
+   any state and for any chunks the run ends in the handler (ERROR sent, connection closed, failure reported), never in an
+   escape *)
+Theorem C07_no_exception_escapes :
+  (forall f v, no_escape (fst (u_child f v))) -> (forall f es, u_report f = Some es -> no_escape es) ->
+  forall cs s, no_escape (snd (FEED s cs)).
+Proof. intros H1 H2 cs s. exact (unsl_no_escape fr u_check u_opener_check u_do_open u_start u_child u_close u_finish u_report H1 H2 cs s). Qed.
+
+Theorem C07_handler_catches_everything : forall k, dr_caught k = true.
+Proof. exact dr_catches_everything. Qed.
+
+(* "a protocol violation makes the receiver send an error, close the connection ...": every exception kind *)
+Theorem C07_exception_sends_error_and_closes : forall k, In UErrorSent (ufatal k) /\ In ULose (ufatal k).
+Proof. exact unsl_fatal_sends_error_and_closes. Qed.
+
+(* (3') once the root has absorbed a violation inside an object (only the root is left on the stack), nothing more happens until the
+   end of that object, where the receiver is at top level again with the stack untouched *)
+Theorem C07_rejected_object_ends_at_top : forall ts c c' es,
+  List.length (u_stack fr c) = 1%nat -> u_inOpen fr c = false -> stays_discarding (u_discard fr c) ts -> u_discard fr c + udelta_sum ts = 0 ->
+  APPLY c ts = UOk fr c' es ->
+  uat_top fr c' /\ u_stack fr c' = u_stack fr c /\ u_vocab fr c' = u_vocab fr c /\ only_pongs es.
+Proof. exact (unsl_rejected_object_ends_at_top fr u_check u_opener_check u_do_open u_start u_child u_close u_finish u_report). Qed.
+
+(* (4) "decoding of the following objects is unaffected": what the receiver does with ANY following tokens depends only on
+   discardCount, the index-phase flag, the unslicer stack, the object counter and the vocabulary (the scratch fields of a finished
+   index phase are never read before they are overwritten): two receivers that agree on those give the same events, token for token *)
+Theorem C07_following_objects_unaffected : forall ts c1 c2, same_but_scratch fr c1 c2 -> hr_rel fr (APPLY c1 ts) (APPLY c2 ts).
+Proof. exact (unsl_following_unaffected fr u_check u_opener_check u_do_open u_start u_child u_close u_finish u_report). Qed.
+
+(* a PING anywhere is answered by exactly one PONG with the same number and changes nothing (PING is in the translated always-legal tuple) *)
+Theorem C07_any_unslicers_ping_exact : forall c n, In tok_PING hd_exempt ->
+  utok_apply fr u_check u_opener_check u_do_open u_start u_child u_close u_finish u_report c tok_PING n [] = UOk fr c [UPong n].
+Proof. exact (unsl_ping_exact fr u_check u_opener_check u_do_open u_start u_child u_close u_finish u_report). Qed.
+
+(* the unslicer-side facts the next theorems need: an absorbing unslicer (the root) keeps absorbing after a child, and an
+   unslicer that raises a Violation from receiveClose / finish hands it to its parent *)
+Hypothesis H_child : forall f v es f', u_child f v = (es, OOk f') -> absorbs fr u_report f -> absorbs fr u_report f'.
+Hypothesis H_close : forall f, (u_close f = OViol \/ (exists v, u_close f = OOk v /\ u_finish f = OViol)) -> u_report f = None.
+
+(* "A schema violation discards exactly the offending top-level object and decoding of the following objects is unaffected":
+   (1) discardCount + live unslicers + pending index phase follows the OPEN/CLOSE nesting of the stream exactly, through every
+   violation; the object counter advances by one per OPEN token, built, rejected or discarded *)
+Theorem C07_any_unslicers_depth_exact : forall ts c c' es, uwfc fr u_report c -> APPLY c ts = UOk fr c' es ->
+  moved fr u_report c c' (udelta_sum ts) (ucount_opens ts).
+Proof. exact (uapply_all_moved fr u_check u_opener_check u_do_open u_start u_child u_close u_finish u_report H_child H_close). Qed.
+
+(* (2) after any balanced token sequence the receiver is back at top level with the same vocabulary *)
+Theorem C07_any_unslicers_resync : forall c ts c' es, uat_top fr c -> uwfc fr u_report c -> udelta_sum ts = 0 -> APPLY c ts = UOk fr c' es ->
+  uat_top fr c' /\ uwfc fr u_report c' /\ u_vocab fr c' = u_vocab fr c /\ u_objctr fr c' = u_objctr fr c + ucount_opens ts.
+Proof. exact (unsl_resync fr u_check u_opener_check u_do_open u_start u_child u_close u_finish u_report H_child H_close). Qed.
+
+(* (3) while the rest of a rejected object is being discarded nothing reaches any unslicer: the stack does not change, and the
+   only events are the PONGs answering PINGs -- until the CLOSE that balances the discard *)
+Theorem C07_discarding_is_silent : forall ts c c' es, u_inOpen fr c = false -> stays_discarding (u_discard fr c) ts ->
+  APPLY c ts = UOk fr c' es ->
+  u_stack fr c' = u_stack fr c /\ u_inOpen fr c' = false /\ u_discard fr c' = u_discard fr c + udelta_sum ts /\
+  u_vocab fr c' = u_vocab fr c /\ only_pongs es.
+Proof. exact (unsl_discard_silent fr u_check u_opener_check u_do_open u_start u_child u_close u_finish u_report). Qed.
+
+(* handleViolation never pops the root and counts exactly the frames it pops *)
+Theorem C07_any_unslicers_violation_keeps_root : forall st, ubottom fr u_report st -> forall d ic st' d' es,
+  uhv_loop fr u_finish u_report st d ic = HvOk fr st' d' es ->
+  ubottom fr u_report st' /\ d <= d' /\
+  d' - d = Z.of_nat (List.length st - List.length st') - (if ic then (if (List.length st' <? List.length st)%nat then 1 else 0) else 0).
+Proof. exact (uhv_loop_bottom fr u_finish u_report). Qed.
+End AnyUnslicers.
+
+Print Assumptions C07_any_unslicers_chunk_independent.
+Print Assumptions C07_no_exception_escapes.
+Print Assumptions C07_handler_catches_everything.
+Print Assumptions C07_exception_sends_error_and_closes.
+Print Assumptions C07_any_unslicers_depth_exact.
+Print Assumptions C07_any_unslicers_resync.
+Print Assumptions C07_discarding_is_silent.
+Print Assumptions C07_any_unslicers_violation_keeps_root.
+Print Assumptions C07_rejected_object_ends_at_top.
+Print Assumptions C07_following_objects_unaffected.
+Print Assumptions C07_any_unslicers_ping_exact.
+
+(* ... for the STANDARD unslicers (RootUnslicer, list, tuple, dict, set, immutable-set, unicode, boolean, none) under any
+   constraint tree the hypotheses hold, so the three sentences are theorems about them *)
+Theorem C07_standard_unslicers_resync : forall mi lg c ts c' es, uat_top sfr c -> swfc c -> udelta_sum ts = 0 ->
+  sapply_all mi lg c ts = UOk sfr c' es ->
+  uat_top sfr c' /\ swfc c' /\ u_vocab sfr c' = u_vocab sfr c /\ u_objctr sfr c' = u_objctr sfr c + ucount_opens ts.
+Proof. exact std_resync. Qed.
+
+Theorem C07_standard_unslicers_no_escape : forall mi lg cs s, no_escape (snd (sfeed_all mi lg s cs)).
+Proof. exact std_no_escape. Qed.
+
+Theorem C07_standard_unslicers_chunk_independent : forall mi lg c cs cs', concat cs = concat cs' ->
+  sfeed_all mi lg (init c) cs = sfeed_all mi lg (init c) cs'.
+Proof. intros mi lg. exact (unsl_chunk_independent sfr std_check (std_opener mi lg) std_do_open std_start std_child std_close std_finish std_report). Qed.
+
+Print Assumptions C07_standard_unslicers_resync.
+Print Assumptions C07_standard_unslicers_no_escape.
+Print Assumptions C07_standard_unslicers_chunk_independent.
+
+(* non-vacuity: under ListOf(ByteString(maxLength=2)) a list whose second item is too long is rejected when the header of that
+   item arrives, the rest of the list is discarded, the root reports ONE violation, and the receiver is back at top level *)
+Definition ex_bytes2 : sctr := SPrim {| t_taster := [(130, Some 2); (135, None)]; t_strict := false; t_opens := Some [] |}.
+Definition ex_listof : sctr := SList {| t_taster := [(136, None)]; t_strict := false; t_opens := Some [1] |} ex_bytes2 None.
+Example C07_standard_resync_example :
+  let c := sctx0 (Some ex_listof) in
+  uat_top sfr c /\ swfc c /\
+  exists c' es, sapply_all 13 0 c [(tok_OPEN, 0, []); (tok_STRING, 4, [108; 105; 115; 116]); (tok_STRING, 1, [97]); (tok_STRING, 3, [97; 98; 99]);
+                                   (tok_INT, 5, []); (tok_CLOSE, 0, [])] = UOk sfr c' es /\ es = [UViolation] /\ uat_top sfr c'.
+Proof.
+  split; [repeat split|]. split; [apply sctx0_wf|].
+  eexists. eexists. split; [vm_compute; reflexivity|]. split; [reflexivity|repeat split].
+Qed.
+
+(* The translated fragments of banana.py agree with the tokenizer model for all arguments (lib/RecvTie.v) *)
+Theorem C07_tie_body_clauses : forall ty hdr, ty <> tok_ERROR -> hd_body_len ty hdr = if has_body ty then Some (blen ty hdr) else None.
+Proof. exact tie_body_len. Qed.
+Theorem C07_tie_exempt : forall ty, existsb (Z.eqb ty) hd_exempt =
+  ((ty =? tok_PING) || (ty =? tok_PONG) || (ty =? tok_ABORT) || (ty =? tok_CLOSE) || (ty =? tok_ERROR)).
+Proof. exact tie_exempt. Qed.
+Theorem C07_tie_header_window : hd_window = 65 /\ hd_max_header = 64 /\ hd_hibit = 128.
+Proof. exact tie_header_window. Qed.
+Theorem C07_tie_error_oversize : forall hdr, hd_error_oversize hdr = (SIZE_LIMIT <? hdr).
+Proof. exact tie_error_oversize. Qed.
+Theorem C07_send_error_fits : forall n, 0 <= n -> se_len n <= SIZE_LIMIT /\ (n <= SIZE_LIMIT -> se_len n = n).
+Proof. exact tie_send_error_len. Qed.
+Theorem C07_handler_order : dr_handler_ops = [HSendError; HSetAbandoned; HReport] /\ se_ops = [SeHeader; SeType; SeBody; SeLose].
+Proof. split; [exact tie_handler_ops|exact tie_send_error_order]. Qed.
+Print Assumptions C07_tie_body_clauses.
+Print Assumptions C07_tie_exempt.
+Print Assumptions C07_tie_header_window.
+Print Assumptions C07_tie_error_oversize.
+Print Assumptions C07_send_error_fits.
+Print Assumptions C07_handler_order.
